@@ -2100,11 +2100,32 @@ pub fn c14(rec: &mut Rec, rng: &mut Rng, thorough: bool) {
                     }
                     rec.op("swap", "ok");
                     let (d3, s3) = run_stream(rec, rng, limit, &chunks, 0, 0);
-                    rec.op("swap", "ok");
                     rec.count("conn:slice-in-pieces");
                     if s3.delivered.first() != Some(t) {
                         rec.oracle_fail("C14", &format!("one-shot accepted {} but a connection fed the same bytes in {} reads (cuts at {:?}) delivered {:?} (error {:?})", t, chunks.len(), cuts, s3.delivered.first(), s3.error), &d3.log);
                     }
+                    drop(d3);
+                    // … and with the payload limit SET AGAIN between two reads (to the same value, or to another one the body
+                    // is within): configuring the limit is not an event of the byte stream
+                    if i % 8 == 0 {
+                        let mut d4 = ConnDriver::new(rec, limit);
+                        let at = rng.below(chunks.len());
+                        for (k, ch) in chunks.iter().enumerate() {
+                            if k == at || (k + 1 == chunks.len() && chunks.len() > 1) {
+                                d4.set_limit(rec, if k % 2 == 0 { limit } else { limit + 1000 });
+                            }
+                            d4.recv(rec, ch, 0);
+                            if d4.conn.is_none() {
+                                break;
+                            }
+                        }
+                        let del4: Vec<String> = d4.popall(rec).iter().map(|x| x.text_nofiles.clone()).collect();
+                        rec.count("conn:slice-in-pieces-limit-set-between");
+                        if del4.first() != Some(t) {
+                            rec.oracle_fail("C14", &format!("one-shot accepted {} but a connection fed the same bytes in {} reads, with set_payload_max_size called between two of them, delivered {:?}", t, chunks.len(), del4.first()), &d4.log);
+                        }
+                    }
+                    rec.op("swap", "ok");
                 }
             }
         }
